@@ -739,7 +739,7 @@ const DESTROY_FEATS: [&str; 12] = [
     "storage_rw_after_recreate",
 ];
 
-const CODE_FEATS: [&str; 17] = [
+const CODE_FEATS: [&str; 18] = [
     "invalid_sender_nonce",
     "deploy",
     "delegation_set",
@@ -757,6 +757,7 @@ const CODE_FEATS: [&str; 17] = [
     "pre_delegated_base",
     "authority_with_storage",
     "delegate_to_in_block_created",
+    "beneficiary_code_changes",
 ];
 
 fn fund_senders(db: &mut MemDb, n: usize) {
@@ -1438,12 +1439,23 @@ fn gen_code(rng: &mut Rng) -> Case {
     for d in &deploy_info {
         hot.insert(d.1);
     }
-    let desc = format!("{} | {}", adesc.join(" "), tdesc.join(" "));
+    // the fee recipient is sometimes an account whose code changes in this block (an authority or
+    // a deployment target): the ordered commit folds later deferred rewards into that account
+    // (chosen last, so the rest of the case does not depend on it)
+    let beneficiary = if rng.chance(1, 4) {
+        feats.insert("beneficiary_code_changes");
+        let mut cands = vec![authority(0), authority(1)];
+        cands.extend(deploy_info.iter().map(|d| d.1));
+        *rng.pick(&cands)
+    } else {
+        miner()
+    };
+    let desc = format!("{} | {} | ben={:x}", adesc.join(" "), tdesc.join(" "), beneficiary);
     Case {
         spec,
         workers,
         disable_nonce_check: false,
-        beneficiary: miner(),
+        beneficiary,
         db,
         txs,
         hot,
